@@ -15,6 +15,11 @@ func gen(t *rapid.T) peng.Case {
 	c := peng.GenProgram(t, peng.Bias{MinN: 1, MaxN: 5, MaxThreads: 4, MinOps: 5, MaxOps: 40, MaxMgrs: 1, Kinds: scen.AllKinds, Barriers: true,
 		MaxSleepUs: 3000, HoldNoRelUs: 12000, StreamItems: 2, AwaitProb: 4, ReleaseModes: []string{"", "", "early"}})
 	c.Drain = true
+	if rapid.IntRange(0, 3).Draw(t, "failSend") == 0 {
+		// one stream write fails under a call whose context is alive; the requests queued behind it
+		// and the calls issued later go over the re-created stream, in order
+		c.Mgrs[0].FailSendAt = []int{rapid.IntRange(1, 60).Draw(t, "failSendAt")}
+	}
 	return c
 }
 
@@ -35,7 +40,7 @@ func run(c peng.Case) vt.Verdict {
 func TestProp(t *testing.T) {
 	vt.Main(t, vt.Spec[peng.Case]{
 		ID:           "C03",
-		Rule:         "rapid-generated client programs: 5-40 operations drawn from all 20 call kinds (RPC, quorum/async/correctable/stream calls on sub-configurations, multicast and unicast with and without send-waiting, per-node variants that skip nodes) issued by 1-4 threads separated by barriers, quorum sizes below the configuration size (stragglers stay queued), futures collected late or never, send buffer 0/1/2/8, receive buffer 0/4, per (server, call) handler latency 0-3 ms or a hold of 1-12 ms without Release, in a third of the behaviours a handler that calls Release at once and keeps running for its latency (and releases again when it returns), no cancellation, no failure; oracle: per server and connection the handler start order never inverts the program's happens-before order (thread order + barriers), no handler starts twice, every targeted server handles every call; non-trivial = at least 3 call kinds, or a straggler still pending when a later call was issued (measured), or a send buffer > 0",
+		Rule:         "rapid-generated client programs: 5-40 operations drawn from all 20 call kinds (RPC, quorum/async/correctable/stream calls on sub-configurations, multicast and unicast with and without send-waiting, per-node variants that skip nodes) issued by 1-4 threads separated by barriers, quorum sizes below the configuration size (stragglers stay queued), futures collected late or never, send buffer 0/1/2/8, receive buffer 0/4, per (server, call) handler latency 0-3 ms or a hold of 1-12 ms without Release, in a third of the behaviours a handler that calls Release at once and keeps running for its latency (and releases again when it returns), no cancellation, and no failure except, in a quarter of the programs, one injected failure of a single stream write (client stream interceptor; the complete-delivery clause is then not applied); oracle: per server and connection the handler start order never inverts the program's happens-before order (thread order + barriers), no handler starts twice, every targeted server handles every call; non-trivial = at least 3 call kinds, or a straggler still pending when a later call was issued (measured), or a send buffer > 0",
 		Gen:          gen,
 		Run:          run,
 		TrackCurrent: true,
